@@ -153,7 +153,8 @@ def model_comparison(grammar, code, cls, maxlen):
             for r in grammar["rules"]:
                 if r["name"] in names:
                     reqs.append((r["name"], toks, f"parsep {names.index(r['name'])} 200000 # {prog} ## {' '.join(tl)}"))
-    answers = corr.Driver().ask_many([q[2] for q in reqs])
+    answers = corr.Driver().ask_many([q[2] for q in reqs] + [f"progfacts # {prog} ##"])
+    facts = answers.pop()
     bad = []
     undecided = 0
     for (rule, toks, _q), ans in zip(reqs, answers):
@@ -166,7 +167,7 @@ def model_comparison(grammar, code, cls, maxlen):
             continue
         if ans != want:
             bad.append({"rule": rule, "tokens": list(toks), "generated_parser": repr(a), "lean_model_of_generated_code": ans})
-    return {"requests": len(reqs), "undecided": undecided, "bad": bad}
+    return {"requests": len(reqs), "undecided": undecided, "bad": bad, "nofalsy": facts == "nofalsy=true"}
 
 
 def _kinds(it):
@@ -399,6 +400,7 @@ def run(rep, tier, pool, variants=("shipped",)):
             model_stats["grammars"] += 1
             model_stats["requests"] += m["requests"]
             model_stats["undecided"] += m.get("undecided", 0)
+            model_stats["no_falsy_actions"] = model_stats.get("no_falsy_actions", 0) + (1 if m.get("nofalsy") else 0)
         elif m.get("skipped"):
             model_stats["skipped"] += 1
             rep.count("model-skipped:" + str(m["skipped"])[:40])
